@@ -823,6 +823,9 @@ func run(c *core.Ctx) {
 			// (only then the guard demonstrably decided the case)
 			c.Shape("neg", desc)
 			c.Inc("neg_rejected_without_statement")
+			if x != nil {
+				c.Inc("neg_rejected_without_statement_fourth_block")
+			}
 			if fin.af != nil {
 				c.Inc("neg_rejected_without_statement_association_mode")
 			}
